@@ -1,15 +1,14 @@
 SPECIFICATION Spec
 CONSTANTS
-  MaxLines = 5
+  MaxLines = 3
   Modes = {"independent", "cumulative"}
-  MaxNext = 5
-  MaxSep = 1
+  MaxNext = 4
+  MaxSep = 2
   LineKinds = {"c", "m", "f"}
-  Flags = {}
+  Flags = {"offset_not_cleared"}
 INVARIANT Lossless
 INVARIANT KthChunk
 INVARIANT PastEndIsFeedback
 INVARIANT WholeFileLines
 INVARIANT Restored
-CONSTRAINT Export
 CHECK_DEADLOCK FALSE
